@@ -94,3 +94,110 @@ def serve_unary(S):
         if c["impl_mode"] == "raises":
             S.oblige("O2.method_error_is_an_error_batch", "error_batch" in names and "result_batch" not in names, kind="trace")
     S.canary("O1.canary.never_invokes_the_method", SBool(z3.BoolVal("impl_invoked" not in names)))
+
+
+from dataclasses import dataclass as _dataclass
+from typing import Protocol as _Protocol
+
+from vgi_rpc import ArrowSerializableDataclass as _ASD
+from vgi_rpc import ProducerState as _ProducerState
+from vgi_rpc import Stream as _Stream
+from vgi_rpc import StreamState as _StreamState
+
+
+@_dataclass(frozen=True)
+class _Hdr(_ASD):
+    n: int
+
+
+class _StreamProto(_Protocol):
+    def boom(self) -> _Stream[_StreamState]: ...
+    def s(self) -> _Stream[_StreamState]: ...
+    def sh(self) -> _Stream[_StreamState, _Hdr]: ...
+    def ok(self) -> int: ...
+
+
+@_dataclass
+class _St(_ProducerState):
+    def produce(self, out, ctx):  # type: ignore[no-untyped-def]
+        out.finish()
+
+
+class _StreamImpl:
+    def boom(self):  # type: ignore[no-untyped-def]
+        raise ValueError("init failed")
+
+    def s(self):  # type: ignore[no-untyped-def]
+        return 42
+
+    def sh(self):  # type: ignore[no-untyped-def]
+        return _Stream(output_schema=pa.schema([]), state=_St(), header=None)
+
+    def ok(self) -> int:
+        return 7
+
+
+def replay_stream(inputs, ob):
+    """Real pipe pair: a stream method misbehaves at init (per the model), then a second call."""
+    import threading
+
+    from vgi_rpc.rpc import RpcConnection, RpcServer, make_pipe_pair
+
+    mode = inputs.get("result_mode", "not_a_stream")
+    ct, st = make_pipe_pair()
+    server = RpcServer(_StreamProto, _StreamImpl())
+    th = threading.Thread(target=lambda: server.serve(st), daemon=True)
+    th.start()
+    res = {}
+
+    def client():
+        with RpcConnection(_StreamProto, ct) as c:
+            try:
+                r = c.boom() if mode == "raises" else (c.s() if mode == "not_a_stream" else c.sh())
+                list(r)
+                res["first"] = "returned"
+            except BaseException as e:
+                res["first"] = type(e).__name__
+            try:
+                res["ok"] = c.ok()
+            except BaseException as e:
+                res["ok"] = "raised " + type(e).__name__
+
+    t2 = threading.Thread(target=client, daemon=True)
+    t2.start()
+    t2.join(5)
+    hung = t2.is_alive()
+    return ReplayResult(hung or res.get("ok") != 7, f"stream method init fault '{mode}': first call -> {res.get('first')}, next call -> {'HUNG' if hung else res.get('ok')}; server thread alive={th.is_alive()}")
+
+
+@unit("C04.O3 _serve_stream survives any stream outcome", targets=["vgi_rpc/rpc/_server.py::RpcServer._serve_stream"], replay=replay_stream, min_obligations=60, max_paths=30000)
+def serve_stream(S):
+    from lib_dispatch import run_serve_stream
+
+    c = run_serve_stream(S, writes_may_fail=False)
+    W, out, G = c["W"], c["out"], c["G"]
+    S.inputs["result_mode"] = c["result_mode"]
+    names = [e[0] for e in S.trace]
+    reader_failed = "reader_failed" in names
+    if out.raised:
+        S.oblige(
+            "O3.only_connection_ending_exceptions_escape",
+            exc_is(out.exc, *CONNECTION_ENDING) and reader_failed,
+            kind="raises",
+            witness=f"{exc_class(out.exc).__name__}:{c['result_mode']}",
+        )
+        return
+    responses = [n for n in names if n in ("error_stream", "stream_open")]
+    S.oblige("O3.exactly_one_response_stream", len(responses) == 1, kind="trace", witness=c["result_mode"])
+    init_fault = c["result_mode"] in ("raises", "not_a_stream") or (c["result_mode"] == "header_missing" and c["header_declared"])
+    if init_fault:
+        S.oblige("O3.init_fault_answered_with_error_stream", "error_stream" in names and "stream_open" not in names, kind="trace", witness=c["result_mode"])
+        # message boundary after an init error: the client of a header-less stream has (or will have) written
+        # exactly one input stream — its first tick/exchange batch or the empty stream close() writes — so the
+        # server must consume it; the client of a header-declaring stream sees the error in place of the header
+        # and writes nothing, so the server must not wait for input.
+        opened_input = "drained" in names or ("reader_failed", "open") in S.trace
+        S.oblige("O4.init_error_consumes_the_clients_input_stream_iff_headerless", opened_input == (not c["header_declared"]), kind="trace", witness=("headerless" if not c["header_declared"] else "with_header"))
+    if "stream_open" in names:
+        S.oblige("O4.input_drained_before_returning", "drained" in names, kind="trace")
+    S.canary("O3.canary.never_opens_a_stream", SBool(z3.BoolVal("stream_open" not in names)))
